@@ -13,7 +13,7 @@ from ..analysis import Spec, src, const_value
 from ..cfg import node_contains_call
 from ..rules import (inside, before, GWF, EXC, mpt, need_func, need_call, stores_to,
                      substitute_locals, chained_assign_value, kw, is_const,
-                     eval_atom, UNKNOWN)
+                     eval_atom, eval_cond, UNKNOWN)
 from . import common, c06
 
 BR = GWF + '.branches'
@@ -175,7 +175,7 @@ def _walk_marks(c, start, env):
                                                    ast.AugAssign)):
             clean = False
         if n.kind == 'test':
-            v = eval_atom(n.ast, env)
+            v = eval_cond(c.func, n.ast, env)
             if v is not UNKNOWN:
                 for s in c.branch(n, bool(v)):
                     stack.append((s, clean))
